@@ -1,7 +1,8 @@
 """C15 — message-log consumption survives crashes without skipping messages.
 Theorems: lean/Wasp/Properties/C15.lean (small-step model with a crash between any two micro-steps; constants regenerated).
 Tie: `msglog` correspondence against the real messages.Log on disk: every incarnation of the consumer is a child PROCESS
-running the real Consume; it SIGKILLs itself inside its k-th callback (`in`) or stops cleanly after it (`clean`);
+running the real Consume; it SIGKILLs itself inside its k-th callback (`in`), stops cleanly after it (`clean`), or runs
+the real glue wasp.SchedulePublishes with a recording writer and cancels the context inside the k-th hand-over (`sched`);
 every crash position k for every log length in the tier's range, several rounds, batch boundary 10, and a log long
 enough to trigger truncation (crash right around offset 2000). The commit log and the mmap'd state file are modelled;
 SIGKILL keeps the page cache (power loss is out of scope).
@@ -149,6 +150,24 @@ def main(tier=None):
         cases += 1
     c.run_suite(Suite("crash-at-every-position", "msglog", ops + ["bye"], both, {"cases": cases, "nontrivial": cases, "lengths": lengths[:12]}, resets=("new",)), timeout=3000)
     samples.append({"suite": "crash-at-every-position", "ops": ops[:12]})
+    # graceful stop (context cancelled) inside the k-th hand-over, through the real glue wasp.SchedulePublishes with a
+    # recording writer: whatever Consume commits must have been handed to the writer (the rest of the poller's batch is)
+    ops_s, cases_s = [], 0
+    for L in ([12, 25] if c.tier == "quick" else [3, 10, 11, 12, 20, 25, 31]):
+        for k in ([1, 4, 9, 10, 11] if c.tier == "quick" else range(1, L + 1)):
+            if k >= L:
+                continue
+            ops_s += ["new", f"append {L}", f"run {k} sched", "run 999 clean"]
+            cases_s += 1
+    for _ in range(4 if c.tier == "quick" else 60):
+        L = rng.choice([15, 25, 33])
+        ops_s += ["new", f"append {L}"]
+        for _ in range(rng.choice([2, 3])):
+            ops_s.append(f"run {rng.randint(1, 7)} {rng.choice(['sched', 'sched', 'in'])}")
+        ops_s.append("run 999 clean")
+        cases_s += 1
+    c.run_suite(Suite("graceful-stop-inside-a-batch", "msglog", ops_s + ["bye"], both, {"cases": cases_s, "nontrivial": cases_s}, resets=("new",)), timeout=3000)
+    samples.append({"suite": "graceful-stop-inside-a-batch", "ops": ops_s[:8]})
     # truncation: > 2000 messages, crashes around the truncation point, Get of everything the writer may still hold
     ops2 = ["new", "append 2105", "run 1995 clean"]
     st = 1995
